@@ -1,10 +1,12 @@
-(* C03  Solver total and sane: what is proved about the generated solver for all inputs (raise contract, shapes); finite / non-negative / bounded / zero-only-at-source are examined on the implementation
+(* C03  Solver total and sane: what is proved about the generated solver for all inputs (raise contract, shapes, 2D non-negativity in exact arithmetic); finite / bounded / zero-only-at-source and 3D non-negativity are examined on the implementation
    Only statements and `exact`: the proofs are in proofs/.  Written by tools/mkprops.py from Coq's own printing of the
    lemma statements; every statement is in full below so that it cannot be weakened without this file changing. *)
 From Coq Require Import ZArith List Bool PrimFloat.
 From FT.lib Require Import Num Arr ArrLemmas Lower NumArr.
 From FT.gen Require Import Common Fteik2d Fteik3d.
+From Coq Require Import Reals.
 From FT.proofs Require Import Sweep2dProofs Sweep3dProofs Solve2dProofs Solve3dProofs.
+From FT.proofs Require OperatorsR NonNeg2d.
 Import ListNotations.
 Open Scope Z_scope.
 
@@ -55,8 +57,67 @@ Theorem C03_result_grid_shape_2d :
        Sweep2dProofs.leT (dim slow 0 + 1) (dim slow 1 + 1) ttm ttn.
 Proof. exact @Solve2dProofs.fteik2d_monotone_in_nsweep_le. Qed.
 
+(* exact arithmetic: under its admissibility test the 4-point operator returns at least the diagonal neighbour's time (its radicand is non-negative there: four_point_radicand_nonneg) *)
+Theorem C03_four_point_operator_causal :
+  forall tv te tev vref dz dx : R,
+       (0 < dz)%R ->
+       (0 < dx)%R ->
+       (0 <= vref)%R ->
+       (tv <= te + dx * vref)%R ->
+       (te <= tv + dz * vref)%R -> (tev <= OperatorsR.four_point tv te tev vref (1 / dz / dz) (1 / dx / dx))%R.
+Proof. exact @NonNeg2d.four_point_ge_tev. Qed.
+
+(* one 2D node update keeps every traveltime >= 0 (slowness >= 0, spacings > 0; any indices, signs, shapes) *)
+Theorem C03_node_update_nonneg_2d :
+  forall (tt : arr R) (ttsgn : arr Z) (slow : arr R) (dz dx zsi xsi zsa xsa vzero : R)
+         (i j sgnvz sgnvx sgntz sgntx nz nx : Z) (grad : bool),
+       (0 < dz)%R ->
+       (0 < dx)%R ->
+       NonNeg2d.nonneg slow ->
+       NonNeg2d.nonneg tt ->
+       NonNeg2d.nonneg
+         (fst
+            (Fteik2d.sweep tt ttsgn slow (dz, dx, (1 / dz)%R, (1 / dx)%R, (1 / dz / dz)%R, (1 / dx / dx)%R) zsi xsi zsa
+               xsa vzero i j sgnvz sgnvx sgntz sgntx nz nx grad)).
+Proof. exact @NonNeg2d.sweep_nonneg. Qed.
+
+(* a whole pass *)
+Theorem C03_pass_nonneg_2d :
+  forall (tt : arr R) (ttsgn : arr Z) (slow : arr R) (dz dx zsi xsi zsa xsa vzero : R) (nz nx : Z) (grad : bool),
+       (0 < dz)%R ->
+       (0 < dx)%R ->
+       NonNeg2d.nonneg slow ->
+       NonNeg2d.nonneg tt -> NonNeg2d.nonneg (fst (sweep2d tt ttsgn slow dz dx zsi xsi zsa xsa vzero nz nx grad)).
+Proof. exact @NonNeg2d.sweep2d_nonneg. Qed.
+
+(* the state after the source initialisation: every entry is the placeholder, 0, an analytic time or a time that passed the admissibility guard against a non-negative neighbour (fix fdc5767) *)
+Theorem C03_initialisation_nonneg_2d :
+  forall (slow : arr R) (dz dx zsrc xsrc : R) (grad : bool),
+       NonNeg2d.nonneg slow ->
+       NonNeg2d.nonneg (i_tt slow dz dx zsrc xsrc grad) /\ (0 <= i_vzero slow dz dx zsrc xsrc grad)%R.
+Proof. exact @NonNeg2d.init_nonneg. Qed.
+
+(* every traveltime returned by the 2D solver is >= 0 and so is the reported source-cell slowness, for every model with non-negative slowness, every source, nsweep and flag *)
+Theorem C03_solve2d_nonneg :
+  forall (slow : arr R) (dz dx zsrc xsrc : R) (nsweep : Z) (grad : bool) (tt ttgrad : arr R) (vzero : R),
+       (0 < dz)%R ->
+       (0 < dx)%R ->
+       wf slow ->
+       1 <= dim slow 0 ->
+       1 <= dim slow 1 ->
+       shape slow = [dim slow 0; dim slow 1] ->
+       (forall i j : Z, 0 <= i < dim slow 0 -> 0 <= j < dim slow 1 -> (0 <= get 0 slow [i; j])%R) ->
+       fteik2d slow dz dx zsrc xsrc nsweep grad = Ok (tt, ttgrad, vzero) ->
+       (forall i j : Z, 0 <= i <= dim slow 0 -> 0 <= j <= dim slow 1 -> (0 <= get 0 tt [i; j])%R) /\ (0 <= vzero)%R.
+Proof. exact @NonNeg2d.fteik2d_nonneg_get. Qed.
+
 Print Assumptions C03_solve2d_raises_iff_source_outside.
 Print Assumptions C03_solve3d_raises_iff_source_outside.
 Print Assumptions C03_initial_grid_shape_2d.
 Print Assumptions C03_initial_grid_shape_3d.
 Print Assumptions C03_result_grid_shape_2d.
+Print Assumptions C03_four_point_operator_causal.
+Print Assumptions C03_node_update_nonneg_2d.
+Print Assumptions C03_pass_nonneg_2d.
+Print Assumptions C03_initialisation_nonneg_2d.
+Print Assumptions C03_solve2d_nonneg.
